@@ -16,6 +16,21 @@ ALL = [f"C{i:02d}" for i in range(1, 36)]
 
 # id -> (category, technique, text, note, design_ref)
 CHECKS: dict[str, tuple[str, str, str, str, str]] = {
+    "C04": (
+        "exploration",
+        "bounded-exhaustive value-pair enumeration against CPython's own operators (differential)",
+        "Every ordered pair (plus the same-object pair) of a 244-value (quick) / 300-value (thorough) "
+        "adversarial alphabet (ints beyond 2^53 and 1e308, NaN/inf/-0.0, complex, Decimal, Fraction, "
+        "str, bytes, containers, one-shot iterators, 190 user classes from the power set of the "
+        "rich-comparison methods x {bool, NotImplemented, raises}) is run through all 10 comparison "
+        "kinds plus the membership-presence predicate of the real ExecutionTracer, every value through "
+        "the truthiness predicate and 500 (raised, matcher) pairs through the exception-match predicate; "
+        "Python's operator on fresh copies fixes the expected outcome. Exhaustive over that alphabet.",
+        "Trusted: CPython's operators as reference; mc/values.py alphabet; an instance-level spy on "
+        "_update_metrics (read-only). Lenient readings: the tracer need not raise when the comparison "
+        "raises; repeated calls of a dunder the plain operator also calls are not 'extra'.",
+        "5/C04",
+    ),
     "C34": (
         "model_checking",
         "explicit-state BFS over the real OrderedSet against a list reference model",
